@@ -3,8 +3,8 @@
    instruction grows faster is a failed Qed. *)
 From Coq Require Import ZArith String List Bool Lia ZifyBool.
 From PushModel Require Import Base.Sx Base.Machine Base.ListOps Base.F32 Model.Item Model.GraphT Model.State
-  Model.InstrBase Model.IScalar Model.ICode Model.Registry Model.Cost
-  Proofs.CostBase Proofs.CostItem.
+  Model.InstrBase Model.IScalar Model.ICode Model.IVector Model.Registry Model.Cost
+  Proofs.CostBase Proofs.CostItem Proofs.CostVec.
 Import ListNotations.
 Open Scope Z_scope.
 
@@ -17,13 +17,18 @@ Ltac destruct_state s := destruct s as [xb xc xe xf xix xi xn xbv xfv xiv xinp x
 
 (* split every match of the hypothesis (innermost scrutinee first) *)
 Ltac split_matches H :=
-  repeat match type of H with
-         | context [match ?x with _ => _ end] =>
-             match x with
-             | context [match _ with _ => _ end] => fail 1
-             | _ => destruct x eqn:?; try discriminate H
-             end
-         end.
+  repeat (first
+    [ match type of H with
+      | context [match ?x with _ => _ end] =>
+          match x with
+          | context [match _ with _ => _ end] => fail 1
+          | _ => destruct x eqn:?; try discriminate H
+          end
+      end
+    | (* a scrutinee whose only inner matches sit under a binder *)
+      match type of H with
+      | context [match ?x with _ => _ end] => destruct x eqn:?; try discriminate H
+      end ]).
 
 Ltac proj_cbn :=
   cbn [st_bool st_code st_exec st_float st_index st_int st_name st_bvec st_fvec st_ivec st_input st_output
@@ -43,6 +48,8 @@ Ltac use_hyps :=
          | E : container ?t ?pat = COk ?c |- _ => pose proof (container_le _ _ _ E); clear E
          | E : insert _ ?t ?x _ = Ok ?r |- _ => pose proof (insert_le _ _ _ _ _ E); clear E
          | E : bind_get ?b ?n = Some ?t |- _ => pose proof (bind_get_le _ _ _ E); clear E
+         | E : overlay_run _ _ _ _ = Some _ |- _ => pose proof (overlay_run_len _ _ _ _ _ E); clear E
+         | E : vset _ _ _ = Ok _ |- _ => pose proof (vset_len _ _ _ _ E); clear E
          end.
 Ltac use_goal :=
   repeat match goal with
@@ -60,6 +67,31 @@ Ltac use_goal :=
              lazymatch goal with
              | _ : wsum f (skipn k l) <= _ |- _ => fail
              | _ => pose proof (wsum_skipn_le f ltac:(nn_side) k l)
+             end
+         | |- context [zlen (filter ?q ?l)] =>
+             lazymatch goal with
+             | _ : zlen (filter q l) <= _ |- _ => fail
+             | _ => pose proof (zlen_filter_le q l)
+             end
+         | |- context [zlen (bool_index ?v ?i)] =>
+             lazymatch goal with
+             | _ : zlen (bool_index v i) <= _ |- _ => fail
+             | _ => pose proof (bool_index_len v i)
+             end
+         | |- context [zlen (firstn ?k ?l)] =>
+             lazymatch goal with
+             | _ : zlen (firstn k l) + zlen (skipn k l) = _ |- _ => fail
+             | _ => pose proof (zlen_firstn_skipn k l)
+             end
+         | |- context [zlen (skipn ?k ?l)] =>
+             lazymatch goal with
+             | _ : zlen (firstn k l) + zlen (skipn k l) = _ |- _ => fail
+             | _ => pose proof (zlen_firstn_skipn k l)
+             end
+         | |- context [zlen (tl ?l)] =>
+             lazymatch goal with
+             | _ : zlen (tl l) <= _ |- _ => fail
+             | _ => pose proof (zlen_tl_le l)
              end
          | |- context [wsum ?f (tl ?l)] =>
              lazymatch goal with
@@ -94,6 +126,22 @@ Ltac grow_fin :=
   cbn [lit_cells] in *;
   pose_nn; pose_lits;
   unfold bindw in *; cbn [fst snd] in *; autorewrite with wdb in *; cbn [lit_cells] in *; pose_lits;
-  unfold cnt, idxw, vw in *; autorewrite with wdb in *;
+  unfold cnt, idxw, vw in *; autorewrite with wdb in *; use_goal;
   unfold str in *; pose_zlen;
   try lia.
+
+(* the element operation of an overlay loop is irrelevant for the lengths: abstract it (its body may
+   contain a match under a binder, which [split_matches] cannot destruct) *)
+Ltac abstract_ops H :=
+  repeat match type of H with
+         | context [@overlay_run ?A ?op] =>
+             tryif is_var op then fail else (let o := fresh "op" in set (o := op) in H; clearbody o)
+         end.
+
+(* [unf] unfolds the instruction bodies of one family in the hypothesis *)
+Ltac grow_with unf :=
+  let p := fresh "p" in let w := fresh "w" in let s := fresh "s" in
+  let w' := fresh "w'" in let s' := fresh "s'" in let H := fresh "HH" in
+  intros p w s w' s' H; destruct_state s;
+  unfold pure, purep, rbind in H; unf H; abstract_ops H;
+  split_matches H; inversion H; subst; clear H; grow_fin.
